@@ -49,6 +49,36 @@ def _defs(func):
     return out
 
 
+class Res(object):
+    """Identify values through locals: a name with exactly one definition
+    in the function stands for that definition (recursively).  Used to
+    compare what is computed, not where; orderings are separate
+    obligations."""
+
+    def __init__(self, func):
+        self.defs = dict((k, v[0]) for k, v in _defs(func).items()
+                         if len(set(N.txt(x) for x in v)) == 1)
+
+    def __call__(self, expr, depth=0):
+        if expr is None:
+            return None
+        env = dict((k, v) for k, v in self.defs.items()
+                   if k not in N.mentions(v))
+        return N.subst(expr, env)
+
+    def txt(self, expr):
+        return N.txt(self(expr)) if expr is not None else None
+
+    def parse(self, text):
+        return self(ast.parse(text, mode='eval').body)
+
+    def lin(self, expr):
+        try:
+            return N.linear(self(expr))
+        except Exception:                 # pylint: disable=broad-except
+            return None
+
+
 def check(ctx):
     index = ctx.index
     mod = index.module(MON)
@@ -60,18 +90,34 @@ def check(ctx):
     defs = _defs(func)
     posts = K.nodes_calling(graph, lambda c: K.callee_text(c) ==
                             'restclient.post')
-    creates = [(n, c) for n, c in posts if 'count=' in N.txt(c)]
-    deletes = [(n, c) for n, c in posts if 'delete' in N.txt(c)]
+    creates = [(n, c) for n, c in posts if 'count=' in K.rtxt(func, c)]
+    deletes = [(n, c) for n, c in posts if 'delete' in K.rtxt(func, c)]
     ctx.require(len(creates) == 1 and len(deletes) == 1,
                 'create and delete requests of reevaluate')
     cnode, ccall = creates[0]
     dnode, dcall = deletes[0]
     # ---- C20.1 -----------------------------------------------------------
-    url = ccall.args[1]
+    res = Res(func)
+    url = K.rexpr(func, ccall.args[1])
+    if isinstance(url, ast.Name):
+        url = res(url)
     asked = None
     if isinstance(url, ast.Call) and K.is_meth(url, 'format') and \
             len(url.args) == 2:
         asked = N.txt(url.args[1])
+    elif isinstance(url, ast.BinOp) and isinstance(url.op, ast.Mod) and \
+            isinstance(url.right, ast.Tuple) and len(url.right.elts) == 2:
+        asked = N.txt(url.right.elts[1])
+    rawurl = ccall.args[1]
+    if isinstance(rawurl, ast.Name) and len(defs.get(rawurl.id, [])) == 1:
+        rawurl = defs[rawurl.id][0]
+    if isinstance(rawurl, ast.Call) and K.is_meth(rawurl, 'format') and \
+            len(rawurl.args) == 2:
+        asked = N.txt(rawurl.args[1])
+    elif isinstance(rawurl, ast.BinOp) and isinstance(rawurl.op, ast.Mod) \
+            and isinstance(rawurl.right, ast.Tuple) and \
+            len(rawurl.right.elts) == 2:
+        asked = N.txt(rawurl.right.elts[1])
     ctx.ob('C20.1', func, cnode, asked is not None and
            len(defs.get(asked, [])) == 1,
            'the number requested is the variable %s' % asked,
@@ -90,25 +136,34 @@ def check(ctx):
     if isinstance(adef, ast.Call) and K.callee_text(adef) == 'int' and \
             isinstance(adef.args[0], ast.Call) and \
             K.callee_text(adef.args[0]) == 'min':
-        ops = sorted(N.txt(a) for a in adef.args[0].args)
-        ok = ops == sorted(['needed', 'math.floor(available)'])
+        ops = sorted(res.txt(a) for a in adef.args[0].args)
+        ok = ops == sorted([res.txt(res.parse('count - current_count')),
+                            res.txt(res.parse('math.floor(available)'))])
+        if not ok and len(adef.args[0].args) == 2:
+            # the head-room may be spelled in any linear form
+            args = adef.args[0].args
+            for need, avail in (args, args[::-1]):
+                ok = ok or (
+                    res.lin(need) == res.lin(res.parse(
+                        'count - current_count')) and
+                    res.txt(avail) == res.txt(res.parse(
+                        'math.floor(available)')))
     ctx.ob('C20.1', func, adef, ok,
            'allowed = int(min(needed, floor(available))): %s' % detail,
            construct='allowed definition')
-    ndef = defs.get('needed', [None])[0]
-    ok = ndef is not None and N.linear(ndef) == {'count': 1,
-                                                 'current_count': -1}
-    ctx.ob('C20.1', func, ndef, ok,
-           'needed = target - current: %s' % (N.txt(ndef) if ndef is not
-                                              None else None),
-           construct='needed definition')
+    # what the decision reads: target and budget from the monitor state,
+    # current from the scheduled listing of that application
+    target = res.txt(res.parse('count'))
+    current = res.txt(res.parse('current_count'))
     avdefs = [N.txt(v) for v in defs.get('available', [])]
     ctx.ob('C20.1', func, None, "conf['available']" in avdefs and
-           [N.txt(v) for v in defs.get('count', [])] == ["conf['count']"]
-           and [N.txt(v) for v in defs.get('current_count', [])] ==
-           ['len(grouped.get(name, []))'],
+           target == "conf['count']" and 'len(' in (current or '') and
+           '.get(name, [])' in (current or '') and
+           ('grouped' in current or "state['scheduled']" in current),
            'available / count / current are read from the monitor state '
-           'and the scheduled listing', construct='inputs of the decision')
+           'and the scheduled listing (count=%s current=%s)' % (target,
+                                                              current),
+           construct='inputs of the decision')
     # ---- C20.2 -----------------------------------------------------------
     pos = N.cmp_atom(ast.Name(id=asked or 'allowed'), '>',
                      ast.Constant(value=0))
@@ -130,38 +185,51 @@ def check(ctx):
             and n not in decs]
     ctx.require(incs, 'refill of the budget')
     for node in incs:
-        val = node.ast.value
+        val = res(node.ast.value)
         ok = isinstance(node.ast, ast.Assign) and isinstance(
             val, ast.Call) and K.callee_text(val) == 'min' and \
             len(val.args) == 2
         sums = []
         caps = []
+        deltas = []
         if ok:
             for arg in val.args:
-                lin = N.linear(arg)
-                if lin == {'available': 1, 'delta': 1}:
-                    sums.append(arg)
-                elif N.txt(arg) == 'max_value':
-                    caps.append(arg)
+                if isinstance(arg, ast.BinOp) and isinstance(arg.op,
+                                                             ast.Add):
+                    sides = [arg.left, arg.right]
+                    for cur, other in (sides, sides[::-1]):
+                        if N.txt(cur) == "conf['available']":
+                            sums.append(arg)
+                            deltas.append(other)
+                else:
+                    try:
+                        if N.linear(arg) == {"conf['count']": 2}:
+                            caps.append(arg)
+                    except Exception:     # pylint: disable=broad-except
+                        pass
         ctx.ob('C20.3', func, node, ok and len(sums) == 1 and
                len(caps) == 1,
                'refill is min(available + delta, cap): %s' % N.txt(val),
                construct='budget refill')
-    cap = defs.get('max_value', [None])[0]
-    ctx.ob('C20.3', func, cap, cap is not None and sorted(
-        N.txt(x) for x in (cap.left, cap.right)) == sorted(
-            ["conf['count']", '2']) and isinstance(cap.op, ast.Mult)
-           if isinstance(cap, ast.BinOp) else False,
-           'cap = 2 * count: %s' % (N.txt(cap) if cap is not None else
-                                    None), construct='budget cap')
-    delta = defs.get('delta', [None])[0]
-    ok = isinstance(delta, ast.BinOp) and isinstance(delta.op, ast.Mult) \
-        and sorted([N.txt(delta.left), N.txt(delta.right)]) == sorted(
-            ["conf['rate']", "now - conf['last_update']"])
-    ctx.ob('C20.3', func, delta, ok,
-           'delta = rate * (now - last_update): %s' % (
-               N.txt(delta) if delta is not None else None),
-           construct='budget delta')
+        ctx.ob('C20.3', func, node, len(caps) == 1,
+               'cap = 2 * count: %s' % (N.txt(caps[0]) if caps else None),
+               construct='budget cap')
+        delta = deltas[0] if len(deltas) == 1 else None
+        okd = False
+        if isinstance(delta, ast.BinOp) and isinstance(delta.op, ast.Mult):
+            sides = [delta.left, delta.right]
+            for rate, span in (sides, sides[::-1]):
+                try:
+                    okd = okd or (
+                        N.txt(rate) == "conf['rate']" and
+                        N.linear(span) == N.linear(res.parse(
+                            "now - conf['last_update']")))
+                except Exception:         # pylint: disable=broad-except
+                    pass
+        ctx.ob('C20.3', func, node, okd,
+               'delta = rate * (now - last_update): %s' % (
+                   N.txt(delta) if delta is not None else None),
+               construct='budget delta')
     interval = try_fold(index, mod, mod.consts.get('_INTERVAL'))
     ctx.ob('C20.3', MON, None, interval == 3600.0,
            'the refill interval is one hour (%s s)' % interval,
@@ -174,7 +242,10 @@ def check(ctx):
                     for k in sub.keys):
                 init = (f, sub)
     ctx.require(init is not None, 'initial monitor state')
-    fields = {k.value: v for k, v in zip(init[1].keys, init[1].values)}
+    ires = Res(init[0])
+    fields = {k.value: ires(v)
+              for k, v in zip(init[1].keys, init[1].values)}
+    target_txt = ires.txt(ires.parse('count'))
 
     def factor(expr, over=None):
         """coefficient c of c * count (/ over)."""
@@ -183,44 +254,65 @@ def check(ctx):
                     expr.op, ast.Div) and N.txt(expr.right) == over):
                 return None
             expr = expr.left
-        lin = N.linear(expr)
-        if list(lin) == ['count']:
-            return float(lin['count'])
+        try:
+            lin = N.linear(expr)
+        except Exception:                 # pylint: disable=broad-except
+            return None
+        if list(lin) == [target_txt]:
+            return float(lin[target_txt])
         return None
     ctx.ob('C20.3', init[0], init[1],
            factor(fields.get('available')) == 2.0 and
            factor(fields.get('rate'), '_INTERVAL') == 2.0 and
-           N.txt(fields.get('count')) == 'count',
+           N.txt(fields.get('count')) == target_txt,
            'initial budget = 2 * count and rate = 2 * count / interval '
            '(twice the target per hour): available=%s rate=%s' % (
                N.txt(fields.get('available')), N.txt(fields.get('rate'))),
            construct='initial budget and rate')
     # ---- C20.4 -----------------------------------------------------------
     surplus = {'current_count': 1, 'count': -1}
+    payload = K.kwarg(dcall, 'payload')
+    pvars = [n.id for n in ast.walk(payload) if isinstance(n, ast.Name)
+             and n.id not in ('dict', 'list', 'sorted', 'set')] \
+        if payload is not None else []
+    ctx.ob('C20.4', func, dnode, len(pvars) == 1 and
+           "instances" in N.txt(payload),
+           'the delete request carries exactly that slice',
+           construct='delete payload')
+    evar = pvars[0] if pvars else 'extra'
     extra_defs = [n for n in graph.nodes if n.kind == 'stmt' and
                   isinstance(n.ast, ast.Assign) and
-                  N.txt(n.ast.targets[0]) == 'extra' and
+                  N.txt(n.ast.targets[0]) == evar and
                   isinstance(n.ast.value, ast.Subscript)]
     ctx.require(len(extra_defs) >= 2, 'scale-down slices')
+
+    def policy_of(atom):
+        if atom.key[0] != 'cmp' or atom.key[1] != '==' or \
+                len(atom.key[2]) != 2:
+            return None
+        terms = [t for t, _c in atom.key[2]]
+        names = [t for t in terms if t.endswith('policy')]
+        lits = [t for t in terms if t.startswith("'")]
+        if len(names) == 1 and len(lits) == 1:
+            return lits[0].strip("'")
+        return None
     seen = set()
     for node in extra_defs:
         sl = node.ast.value.slice
-        pol = [f for f in facts[node] if f.key[0] == 'cmp' and
-               f.key[1] == '==' and 'policy' in [t for t, _c in f.key[2]]]
         policy = None
-        for fact in pol:
-            other = [t for t, _c in fact.key[2] if t != 'policy']
-            if other:
-                policy = other[0].strip("'")
+        for fact in facts[node]:
+            policy = policy_of(fact) or policy
         ok = False
+
+        lin = res.lin
+        surplus = res.lin(res.parse('current_count - count'))
         if isinstance(sl, ast.Slice) and sl.step is None:
             if policy == 'fifo':
                 ok = sl.lower is None and sl.upper is not None and \
-                    N.linear(sl.upper) == surplus
+                    lin(sl.upper) == surplus
             elif policy == 'lifo':
                 ok = sl.upper is None and sl.lower is not None and \
-                    N.linear(sl.lower) == {k: -v
-                                           for k, v in surplus.items()}
+                    lin(sl.lower) == {k: -v for k, v in surplus.items()}
         seen.add(policy)
         ctx.ob('C20.4', func, node, ok and
                N.txt(node.ast.value.value) == 'grouped[name]',
@@ -231,24 +323,17 @@ def check(ctx):
     ctx.ob('C20.4', func, None, seen == {'fifo', 'lifo'},
            'both policies are handled: %s' % sorted(str(s) for s in seen),
            construct='scale-down policies')
-    payload = K.kwarg(dcall, 'payload')
-    ctx.ob('C20.4', func, dnode, payload is not None and
-           'extra' in N.txt(payload),
-           'the delete request carries exactly that slice',
-           construct='delete payload')
-    # unknown policy: no request
-    unknown = K.find_path(
-        [n for n in graph.nodes if n.kind == 'test' and
-         "policy == 'fifo'" in N.txt(n.ast)][0], [dnode],
-        cut_edge=lambda e: any(
-            a.key[0] == 'cmp' and a.key[1] == '==' and
-            'policy' in [t for t, _c in a.key[2]]
-            for a in nz.facts_of_edge(e)) or e.kind == 'exc',
-        follow_exc=False) if any(
-            n.kind == 'test' and "policy == 'fifo'" in N.txt(n.ast)
-            for n in graph.nodes) else []
+    # unknown policy: no request (flags / None results are followed)
+    dloop = K.enclosing_for(graph, dnode)
+    unknown = K.find_path_cp(
+        graph, dloop, [dnode], cut_node=lambda n: n is dloop,
+        cut_edge=lambda e: e.kind == 'exc' or any(
+            policy_of(a) in ('fifo', 'lifo')
+            for a in nz.facts_of_edge(e)),
+        follow_exc=False) if dloop is not None else []
     ctx.ob('C20.4', func, dnode, unknown is None,
            'an unknown policy issues no delete request',
+           path=K.describe(unknown) if unknown else None,
            construct='unknown policy')
     sw = [f for f in mod.live_functions() if f.name == '_scheduled_watch']
     ctx.require(sw, '_scheduled_watch')
@@ -299,6 +384,23 @@ def check(ctx):
                            N.txt(s.targets[0]) == 'suspended[name]' and
                            '_DELAY_INTERVAL' in N.txt(s.value)
                            for s in ast.walk(hdl))
+                # ... or through a local closure called with the monitor's
+                # name
+                for inner in ast.walk(hdl):
+                    if isinstance(inner, ast.Call) and \
+                            isinstance(inner.func, ast.Name) and \
+                            inner.func.id in func.nested() and inner.args \
+                            and N.txt(inner.args[0]) == 'name':
+                        helper = func.nested()[inner.func.id]
+                        hparams = helper.params()
+                        body = K._fn_body(helper.raw)
+                        if hparams and any(
+                                isinstance(s, ast.Assign) and
+                                N.txt(s.targets[0]) ==
+                                'suspended[%s]' % hparams[0] and
+                                '_DELAY_INTERVAL' in N.txt(s.value)
+                                for s in body):
+                            sets = True
                 handled[name] = sets
     specific = {k: v for k, v in handled.items()
                 if k not in ('Exception', 'bare')}
